@@ -53,7 +53,7 @@ def gen_case(rnd):
         ops.append("G")
     flags = rnd.choice([15, 15, 15, 1, 6, 8, 0])
     cache = rnd.choice([("none", 0), ("lru", 3), ("rr", 2), ("lru", 1000)])
-    transport = rnd.choice(["tcp", "udp", "unixgram"])
+    transport = rnd.choice(["tcp", "udp", "unixgram", "tcp", "udp", "unixgram", "unixgram@"])
     return flags, cache, transport, ops, cfgs, rnd.random() < 0.3        # reload by SIGHUP instead of /-/reload
 
 
@@ -74,9 +74,16 @@ def gen_hostile_case(rnd):
         if b"\n" in ln or b"\r" in ln or len(ln) > 1000 or not ln or any(low.startswith(p_) or low[:1] in b"#,[" and p_ in low for p_ in (b"go_", b"go.", b"process", b"promhttp", b"statsd")):
             continue
         ops.append(PE.I(ln))
+    transport = rnd.choice(["tcp", "udp", "unixgram"])
+    if transport != "tcp" and rnd.random() < 0.5:
+        # a datagram without payload: one empty line, and the listener goes on
+        ops.insert(rnd.randint(len(cfgs), len(ops)), PE.I(b""))
+    if rnd.random() < 0.3:
+        # families whose names differ by a suffix another exposition format gives a meaning to
+        ops += [PE.I(b"jobs_total:1|c"), PE.I(b"jobs:3|g"), PE.I(b"jobs_created:42|g")]
     ops.append(PE.I(b"after.hostile:1|c"))
     ops.append("G")
-    return rnd.randrange(16), rnd.choice([("none", 0), ("none", 0), ("lru", 1000), ("rr", 2)]), rnd.choice(["tcp", "udp", "unixgram"]), ops, cfgs, False
+    return rnd.randrange(16), rnd.choice([("none", 0), ("none", 0), ("lru", 1000), ("rr", 2)]), transport, ops, cfgs, rnd.choice([False, "debuglog"])
 
 
 def gen_reload_case(rnd):
@@ -333,7 +340,13 @@ def compare_case(case, obs, model, ticks=None):
                 return (k, "the binary's own counters (events, actions, errors, conflicts, metrics) differ from the predicted ones", repr(gi["tel"]), repr(gm["tel"]))
             want = dict(lines=nlines, loaded=loaded, reload_ok=nok, reload_fail=nfail,
                         tcp=(1 if transport == "tcp" and nlines else 0), udp=(npk if transport in ("udp", "udp6") else 0),
-                        unixgram=(npk if transport == "unixgram" else 0))
+                        unixgram=(npk if transport in ("unixgram", "unixgram@") else 0))
+            # content negotiation: the unchanged handler answers text 0.0.4 to an OpenMetrics request and protobuf to a protobuf
+            # request, and the protobuf body decodes to the same families as the text body
+            neg = {k2: int(w.pop(k2)) for k2 in ("neg_om", "omdup", "neg_pb", "pbsame") if k2 in w}
+            if neg and neg != dict(neg_om=0, omdup=0, neg_pb=1, pbsame=1):
+                return (k, "the metrics endpoint answers a scraper that asks for OpenMetrics or protobuf with something the text exposition does not match "
+                           "(an exposition format outside the tie, duplicate TYPE/HELP/series lines in it, or protobuf families that differ)", repr(neg), repr(dict(neg_om=0, omdup=0, neg_pb=1, pbsame=1)))
             serr = w.pop("serr", "-")
             got_serr = {} if serr == "-" else {vf.unhex(x.rsplit(":", 1)[0]).decode(): int(x.rsplit(":", 1)[1]) for x in serr.split(",")}
             got = {k2: int(v) for k2, v in w.items()}
@@ -356,7 +369,7 @@ def replay_case(rep, pid, path):
     if "transport" not in rp or "ops" not in rp or any(o.startswith("...") for o in rp["ops"]):
         return False
     cfgs = [None if n_ is None else (None, [None] * n_) for n_ in rp.get("rules_per_config", [])]
-    case = (rp["flags"], tuple(rp["cache"]), rp["transport"], rp["ops"], cfgs, (rp.get("reload_by") if str(rp.get("reload_by", "")).startswith("inplace") else rp.get("reload_by") == "SIGHUP"), rp.get("e2e_ops"))
+    case = (rp["flags"], tuple(rp["cache"]), rp["transport"], rp["ops"], cfgs, (rp.get("reload_by") if str(rp.get("reload_by", "")).startswith(("inplace", "debuglog")) else rp.get("reload_by") == "SIGHUP"), rp.get("e2e_ops"))
     run(rep, pid, "quick", rep.seed, key="e2e_replay", cases=[case])
     return True
 
@@ -437,6 +450,14 @@ def check_configs(rep, pid, items, limit):
                               dict(yaml=text, check_config=o[0]))
     rep.extra["check_config_runs"] = len(items)
     rep.extra["check_config_disagreements"] = bad
+    big = [(65, 1), (65, 0), (17, 1), (2, 1)] if limit < 1000 else [(65, 1), (65, 0), (17, 1), (2, 1), (129, 1), (257, 1), (33, 0)]
+    for (mib, invalid), o in zip(big, run_e2e(pid, ["KB %d %d" % b for b in big], par=2, tag="checkconfig_big")):
+        rep.count(1)
+        if o[0] != "KB exit=%d" % (1 if invalid else 0):
+            rep.violation("--check-config gives the wrong verdict on a very long mapping file (%s)" % ("an invalid last rule goes unnoticed" if invalid else "a valid file is rejected"),
+                          dict(file_size_MiB=mib, last_rule="observer_type: nonsense" if invalid else "valid", observed=o[0],
+                               how="one good rule, 1 KiB comment lines up to the size, then the last rule; statsd_exporter --check-config"))
+    rep.extra["check_config_big_files_MiB"] = [b[0] for b in big]
 
 
 def gen_stream(rnd):
